@@ -15,25 +15,27 @@ CONSTANTS
   Dev_MaskBit7,            \* negative control: response-id filter tests bit 7 instead of bit 6
   Dev_ShortLens,           \* negative control: the last probe length is dropped
   Dev_BreakOnLenErr,       \* negative control: a length error ends the probing of a service id
+  Dev_BreakOnTimeout,      \* negative control: a timeout ends the probing of a service id
   Dev_CheckDoesNotRestore  \* negative control: check_session notices the wrong session but does not re-enter
 
 VARIABLES M, C, pc, queue, cur, todo, sid, li, found, truth, hist, result, verdict
 vars == <<M, C, pc, queue, cur, todo, sid, li, found, truth, hist, result, verdict>>
 
 \* ------------------------------------------------------------ abstract ECU
-Cls(k, at, pos, drop) == [k |-> k, at |-> at, pos |-> pos, drop |-> drop]
-Absent     == Cls("Absent", 0, FALSE, FALSE)
-AbsentHere == Cls("AbsentHere", 0, FALSE, FALSE)
-LenErrAlw  == Cls("LenErr", 0, FALSE, FALSE)
-Silent     == Cls("Silent", 0, FALSE, FALSE)
-AnswersAt(at, pos, drop) == Cls("Ans", at, pos, drop)
+Cls(k, at, pos, drop, q) == [k |-> k, at |-> at, pos |-> pos, drop |-> drop, q |-> q]
+Absent     == Cls("Absent", 0, FALSE, FALSE, FALSE)
+AbsentHere == Cls("AbsentHere", 0, FALSE, FALSE, FALSE)
+LenErrAlw  == Cls("LenErr", 0, FALSE, FALSE, FALSE)
+Silent     == Cls("Silent", 0, FALSE, FALSE, FALSE)
+AnswersAt(at, pos, drop) == Cls("Ans", at, pos, drop, FALSE)   \* shorter requests: length error
+QuietBelow(at, pos)      == Cls("Ans", at, pos, FALSE, TRUE)   \* shorter requests: no answer at all
 
 ClassAns(c, n) ==
   CASE c.k = "Absent"     -> SNS
     [] c.k = "AbsentHere" -> SNSIAS
     [] c.k = "LenErr"     -> LENERR
     [] c.k = "Silent"     -> NONE
-    [] c.k = "Ans"        -> IF n < c.at THEN LENERR ELSE IF c.pos THEN POS ELSE NEG
+    [] c.k = "Ans"        -> IF n < c.at THEN (IF c.q THEN NONE ELSE LENERR) ELSE IF c.pos THEN POS ELSE NEG
 ClassImpl(c) == c.k \notin {"Absent", "AbsentHere"}
 
 SvcClass(s, x) == IF <<s, x>> \in DOMAIN M.svc THEN M.svc[<<s, x>>] ELSE Absent
@@ -120,7 +122,7 @@ Probe ==
          r == ClassAns(c, n)
      IN /\ hist' = Append(hist, <<truth, n + 1, sid, 0, IF n >= 2 THEN 0 ELSE 256, r>>)
         /\ truth' = IF c.drop /\ Meaningful(r) THEN 1 ELSE truth
-        /\ IF NotSupp(r) \/ (r = LENERR /\ Dev_BreakOnLenErr)
+        /\ IF NotSupp(r) \/ (r = LENERR /\ Dev_BreakOnLenErr) \/ (r = NONE /\ Dev_BreakOnTimeout)
            THEN pc' = "Sid" /\ UNCHANGED <<li, found>>
            ELSE IF r \in {LENERR, NONE}
            THEN IF li < Len(Lens) THEN li' = li + 1 /\ UNCHANGED <<pc, found>>
